@@ -315,7 +315,7 @@ func main() {
 							// scenario unbounded (measured); explored under a preemption bound instead,
 							// for the callback counts at which the listener slice has spare capacity
 							if ex == "default" && (k == 3 || k == 5) {
-								sc := r.Conc(fmt.Sprintf("pb3/k%d/%s/%s", k, strings.Join(names, ","), ex), 3, scenario(k, roles, ex))
+								sc := r.Conc(fmt.Sprintf("pb2/k%d/%s/%s", k, strings.Join(names, ","), ex), 2, scenario(k, roles, ex))
 								sc.SplitDepth = 4
 							}
 							continue
@@ -336,7 +336,7 @@ func main() {
 						roles[i] = role(m)
 						names[i] = roleNames[m]
 					}
-					sc := r.Conc(fmt.Sprintf("pb3/k%d/%s/default", k, strings.Join(names, ",")), 3, scenario(k, roles, "default"))
+					sc := r.Conc(fmt.Sprintf("pb2/k%d/%s/default", k, strings.Join(names, ",")), 2, scenario(k, roles, "default"))
 					sc.SplitDepth = 4
 				}
 			}
